@@ -219,6 +219,17 @@ func runWire(sc *WireScenario) *WireResult {
 					if err := cli.Publish(ctx, &mqtt.Message{Topic: fmt.Sprintf("t/%d", ci), QoS: q, Payload: pl}); err != nil {
 						addErr("publish: " + netsim.ErrClass(err))
 					}
+				case 'L':
+					// a large message (several tens of KiB): written in one BaseClient.write call like any other packet
+					pl := make([]byte, 33000+ci*2000+j*500)
+					for k := range pl {
+						pl[k] = byte('A' + ci)
+					}
+					copy(pl, fmt.Sprintf("L%d-%d:", ci, j))
+					expect(3, ints(pl))
+					if err := cli.Publish(ctx, &mqtt.Message{Topic: fmt.Sprintf("t/%d", ci), QoS: mqtt.QoS0, Payload: pl}); err != nil {
+						addErr("publish: " + netsim.ErrClass(err))
+					}
 				case 's':
 					f := fmt.Sprintf("s/%d/%d", ci, j)
 					body := append([]byte{byte(len(f) >> 8), byte(len(f))}, f...)
